@@ -22,6 +22,9 @@ def _q(p, q, *like):
 
 
 def _is_nan(r):
+    import pyvc.terms as _T
+    if isinstance(r, _T.XR):
+        return r.nan
     if isinstance(r, Opaque):
         return r.what == "nan"
     if is_symbolic(r):
